@@ -44,4 +44,13 @@ theorem exists_cons (b : Bytes) (h : 0 < b.length) : ∃ x r, b = x :: r := by
   | nil => simp at h
   | cons x r => exact ⟨x, r, rfl⟩
 
+theorem bAt_take (b : Bytes) (n i : Nat) (h : i < n) : bAt (b.take n) i = bAt b i := by
+  unfold bAt
+  simp [List.getD_eq_getElem?_getD, h]
+
+theorem be32_take (b : Bytes) (n i : Nat) (h : i + 3 < n) : be32 (b.take n) i = be32 b i := by
+  unfold be32
+  rw [bAt_take _ _ _ (by omega), bAt_take _ _ _ (by omega), bAt_take _ _ _ (by omega),
+    bAt_take _ _ _ (by omega)]
+
 end EpModel.Lemmas.CodecNet
